@@ -41,12 +41,20 @@ def run_rules(mod, repo: Repo, only_rule: Optional[str] = None) -> Tuple[List[Ru
         rid = getattr(rule, "rule_id", rule.__name__)
         if only_rule is not None and rid != only_rule:
             continue
+        from . import report as _report
+
+        del _report.ACTIVE[:]
         try:
             res = rule(repo)
             res.finish()
             runs.append(res)
         except AnalysisError as err:
             errors.append(f"{rid}: {err}")
+            # findings established before the analysis gave up are still findings
+            for partial in _report.ACTIVE:
+                if partial.findings and partial.rule == rid:
+                    partial.notes.append("rule aborted with an analysis error after these findings")
+                    runs.append(partial)
         except RecursionError as err:
             errors.append(f"{rid}: internal error RecursionError {err}")
         except Exception as err:  # noqa: BLE001 - tracebacks must not look like violations
